@@ -277,7 +277,7 @@ impl Obj {
 }
 
 // ------------------------------------------------------------------ data from seeds
-const SPECIALS: [u32; 14] = [
+const SPECIALS: [u32; 22] = [
     0x7fc0_0000, // NaN
     0xffc0_0001, // -NaN with payload
     0x7f80_0000, // +inf
@@ -292,6 +292,15 @@ const SPECIALS: [u32; 14] = [
     0x3f80_0000, // 1
     0x0080_0000, // MIN_POSITIVE
     0xbf00_0000, // -0.5
+    // boundaries of documented ranges and their neighbours
+    0x3f80_0001, // 1.0 + ulp
+    0x3f7f_ffff, // 1.0 - ulp
+    0x43b4_0000, // 360.0 (the Hsl documentation allows H = 360)
+    0x43b3_ffff, // 360.0 - ulp
+    0x43b4_0001, // 360.0 + ulp
+    0x437f_0000, // 255.0
+    0x477f_ff00, // 65535.0
+    0x3f00_0000, // 0.5
 ];
 
 pub fn float_pixel(seed: u64, mode: u64, i: u64) -> [u32; 3] {
@@ -322,9 +331,14 @@ pub fn float_pixel(seed: u64, mode: u64, i: u64) -> [u32; 3] {
                 unit
             }
             _ => {
-                // HSL ranges: H in [0,360), S,L in [0,1]
+                // HSL ranges: H in [0,360], S,L in [0,1]; a sixth of the hues on the sextant
+                // boundaries (360 included: the type's documentation allows it)
                 if c == 0 {
-                    unit * 360.0
+                    if r % 6 == 0 {
+                        ((r >> 8) % 7) as f32 * 60.0
+                    } else {
+                        unit * 360.0
+                    }
                 } else if r & 7 == 0 {
                     ((r >> 8) % 2) as f32
                 } else {
